@@ -175,9 +175,10 @@ def run(rep, facts):
     sr = check.Report("tmp", "quick")
     n_err = c12.check_error_live(sr, g, ev, "run")
     tol = {i["instance"]: i for i in sr.instances if i["rule"] == "R12.2" and "tolerates" in i["instance"]}
-    want = {"run/async_io::Request::close/tolerates[io:ConnectionAborted]", "run/async_io::Request::record_boundary/tolerates[parser:AbortRequest]",
-            "run/async_io::Token::run/tolerates[io:ConnectionAborted]"}
-    if set(tol) == want:
+    want = ["io:ConnectionAborted", "io:ConnectionAborted", "parser:AbortRequest"]
+    # (in run: the handler's ConnectionAborted; in close: writeable()'s ConnectionAborted and the drain's AbortRequest;
+    #  compared by error kind, the private helpers that contain them may be named and factored freely)
+    if sorted(t.split("tolerates[", 1)[1].rstrip("]") for t in tol) == want:
         rep.ok("R11.5", "tolerated-errors", "exactly the three enumerated tolerance guards exist: %s" % sorted(t.split("/", 1)[1] for t in tol))
     else:
         rep.violation("R11.5", "tolerated-errors", "tolerance guards are %s; expected %s" % (sorted(tol), sorted(want)))
@@ -200,13 +201,16 @@ def run(rep, facts):
     nreads = 0
     for n in g.all_nodes():
         e = ev.at(n)
-        if e is not None and e[0] == 'READ' and common.fn_of(n) == "async_io::Request::record_boundary":
+        stack = [fr.body.npath for fr in n.frame.stack()]
+        # the drain: transport reads issued by close() itself, not by the writeable() it awaits first (both public)
+        if e is not None and e[0] == 'READ' and any(x.startswith("async_io::Request::close") for x in stack) \
+                and not any(x.startswith("async_io::Request::writeable") for x in stack):
             nreads += 1
             if "BCHK" in md.get(n.key, frozenset()):
                 rep.ok("R11.5", "record_boundary/boundary-consulted", "is_record_boundary() is consulted after the last parse on every path to this read (an abort stops at a record boundary, so the drain ends)", n.loc())
             else:
                 rep.violation("R11.5", "record_boundary/boundary-consulted", "after a parse (possibly the tolerated AbortRequest) the drain loop can read again without asking whether a record boundary was reached", n.loc())
-    rep.floor("R11.5", "reads in the record-boundary drain", nreads, 1)
+    rep.floor("R11.5", "transport reads inside close() (the record-boundary drain)", nreads, 1)
     # stream parser: Err(AbortRequest) is produced only by the header dispatch (i.e. at a record boundary)
     sites_abort = [b2.npath for (b2, bi, si, st) in F.aggregates_of(facts, "parser::Error") if st["rv"]["vn"] == "AbortRequest" and b2.npath.startswith("parser::stream")]
     sb = sites.get('stream')
